@@ -663,6 +663,10 @@ impl Engine for E2J {
         "e2-jura-twin"
     }
 
+    fn prefers_processes(&self) -> bool {
+        true // JuraV1::tick println!s the whole book: threads would serialise on the stdout lock
+    }
+
     fn generate(&self, seed: u64, focus: &str, tier: Tier, keep_text: bool) -> (Self::Case, Ctx) {
         let root = Rng::new(seed);
         let mut w = root.fork("world");
